@@ -17,6 +17,7 @@ CONSTANTS
   Burst <- NoLimit
   BroadcastDedup = TRUE
   FIX_PruneEmpty = TRUE
+  FIX_Recheck = TRUE
   AllowLate = TRUE
   TrackEvicted = TRUE
   AtomicCheck = TRUE
